@@ -393,4 +393,28 @@ theorem distinct_fold (vs : List Val) (seen : List Val) (hnd : seen.Nodup) (hm :
       simp only [List.mem_append, List.mem_singleton, List.mem_cons]
       grind
 
+/-! ### NaN-free inputs -/
+
+theorem floats_of_no_nan (vs : List Val) (h : Val.nan ∉ vs) : floats vs = (valid vs).map F.num := by
+  induction vs with
+  | nil => rfl
+  | cons v rest ih =>
+    have hr : Val.nan ∉ rest := fun e => h (List.mem_cons_of_mem _ e)
+    have hv : v ≠ Val.nan := fun e => h (by simp [e])
+    simp only [floats, valid] at ih ⊢
+    cases v with
+    | nan => exact absurd rfl hv
+    | missing => rw [List.filterMap_cons_none (by rfl), List.filterMap_cons_none (by rfl)]; exact ih hr
+    | nonNum t => rw [List.filterMap_cons_none (by rfl), List.filterMap_cons_none (by rfl)]; exact ih hr
+    | int i =>
+      rw [List.filterMap_cons_some (b := F.num i) (by rfl), List.filterMap_cons_some (b := (i : Rat)) (by rfl),
+        List.map_cons, ih hr]
+    | flt q =>
+      rw [List.filterMap_cons_some (b := F.num q) (by rfl), List.filterMap_cons_some (b := q) (by rfl),
+        List.map_cons, ih hr]
+
+theorem nan_mem_floats (vs : List Val) (h : Val.nan ∈ vs) : F.nan ∈ floats vs := by
+  simp only [floats, List.mem_filterMap]
+  exact ⟨Val.nan, h, rfl⟩
+
 end Varpulis.Agg
